@@ -45,6 +45,11 @@ CFG = {
         "(GetNAs*/RGetNAs*, Iter*/RIter*, And/Or/OrThenReverse/Reverse, Len/NLen); each result is compared in Go with the first "
         "result of the same call in that goroutine and every DISTINCT observation per (goroutine, call) is emitted as an ordinary "
         "case decided by Coq; instances share nothing by contract, so any second observation is a violation under every schedule; "
+        "boundary stream over n for EVERY Iter*/RIter*/GetN*/RGetN* entry point and width: n in {32767, 32768, 65535, 65536, 65539, "
+        "2^20, 2^31-1, 2^31, 2^32+5, MaxInt64, -1, -32768, -32769, -65536, MinInt32, MinInt64} (GetN: up to 65539, it allocates n) "
+        "with the slice sized pos+min(n,Len) exactly and with slack (the random geometry also has pos+n sizing), huge pos; "
+        "Equal on structured pairs: the same bit in 2/4/8/16 words (bit 63 twice ...), a word difference and its arithmetic "
+        "negative, the same difference twice, one flip, equal, random; "
         "iterator / GetN cases are non-trivial when the bitmap has at least one member, every other case always; "
         "distinct = distinct (function, inputs incl. sparse threshold, observed outcome)"
     ),
